@@ -7,6 +7,7 @@ never pyoak's own accessors / digests.
 """
 from __future__ import annotations
 
+import json
 import dataclasses
 import re
 import weakref
@@ -349,6 +350,7 @@ class World:
             finally:
                 FAULTS.disarm()
                 self.extra_roots = []
+                self.adopt_sink()
             self.stats.note_step(op.get("actor", "a0"), kind, outcome)
             if self.cfg["gc"] == "exact" or kind == "gc":
                 collect()
@@ -359,6 +361,20 @@ class World:
             # every property here is about trees of nodes: a tree the library built from well-formed input with a
             # non-node in a child position is outside all of them
             raise self.viol(f"{self.prop}.0 malformed-tree", f"{self.prop}.0:shape:{kind}", f"after {kind}: {e}", op=kind) from None
+
+    def adopt_sink(self) -> None:
+        """Nodes constructed by user callbacks during the op (Hook.__post_init__) and kept by the user: the first few
+        become ordinary handles, the rest are dropped at once."""
+        sink = U.M.HOOK_SINK
+        if not sink:
+            return
+        for o in sink:
+            n = self.__dict__.setdefault("_adopted", 0)
+            if n < 8:
+                self._adopted = n + 1
+                self.put(f"hk{n}", "node", o, "a0")
+            self.stats.probes["node_made_by_user_callback"] += 1
+        del sink[:]
 
     # ---- invariants after every step ----------------------------------------------------------
     def check_all(self, op: dict[str, Any], outcome: str) -> None:
@@ -1302,6 +1318,11 @@ class Gen:
             op = self.g_construct(actor)
         op["step"] = w.step_no + 1
         op["actor"] = actor
+        if op.get("twinpair") and not getattr(self, "script", None) and r.random() < 0.6:
+            # the tree holding a stale node and its live twin is then used as a whole by the same actor
+            t = op["out"]
+            nxt = r.choice(["detach", "detach", "duplicate", "detach_self"])
+            self.script = [lambda a, t=t, nxt=nxt: ({"op": nxt, "n": {"h": t, "path": []}, **({"out": self.out()} if nxt == "duplicate" else {})} if t in w.handles and cfg["weights"].get(nxt, 0) > 0 else None)]
         return op
 
     def out(self) -> str:
@@ -1625,6 +1646,20 @@ class Gen:
         op: dict[str, Any] = {"op": "transform", "n": ref, "rules": self.gen_rules(o), "strict": r.random() < 0.4, "vshape": r.choice(["flat", "flat", "base", "split", "validate"]), "out": self.out()}
         if self.cfg["faults"]:
             op["enum"] = True
+        if self.cfg["faults"] and r.random() < 0.08:
+            # burst: a raising rule for a class that occurs (deep) in ANOTHER tree only
+            other = self.pick_ref(actor, root_bias=0.9)
+            if other is not None:
+                t2 = self.w.node_at(other)
+                here = {cname(x) for x in walk(o)}
+                only = sorted({cname(x) for x in walk(t2)[1:]} - here - {c for cl in here for c in U.MRO[cl]})
+                only = [c for c in only if not any(c in U.MRO[h] for h in here)]
+                if only and len(walk(t2)) <= 25:
+                    c = r.choice(only)
+                    op["rules"] = {k: v for k, v in op["rules"].items() if k not in ("ASTNode", "Expr") and k not in U.MRO[c]}
+                    op["rules"][c] = ["raise", r.choice(sorted(_EXC))]
+                    op["burst"] = {"on": other, "n": r.choice([30, 150, 300])}
+                    op.pop("enum", None)
         return op
 
 
@@ -1648,11 +1683,11 @@ def _has_class(spec: Any, cls: str) -> bool:
 
 _OBS = {"findall": 1.0, "walkgen": 0.7, "gen_next": 0.7, "tree": 0.5, "obs": 2.0}
 BASE_WEIGHTS = {
-    "C03": {"construct": 5, "twin": 4, "drop": 3, "gc": 0.5, "detach_self": 4, "detach": 2.5, "duplicate": 2, "dc_replace": 2, "replace": 4,
+    "C03": {"construct": 5, "twin": 4, "twinpair": 1.2, "drop": 3, "gc": 0.5, "detach_self": 4, "detach": 2.5, "duplicate": 2, "dc_replace": 2, "replace": 4,
             "ser": 1.5, "deser": 2, "crash": 1, "transform": 1, **_OBS},
     "C14": {"construct": 5, "twin": 3, "twinpair": 1.5, "drop": 2, "detach_self": 2.5, "detach": 1, "duplicate": 5, "dc_replace": 4, "replace": 5, "ser": 1.5, "deser": 1.5,
             "crash": 1.0, "obs": 0.6},
-    "C10": {"construct": 5, "twin": 2, "drop": 2, "detach_self": 2, "detach": 1.5, "duplicate": 3, "dc_replace": 3, "replace": 3,
+    "C10": {"construct": 5, "twin": 2, "twinpair": 0.8, "drop": 2, "detach_self": 2, "detach": 1.5, "duplicate": 3, "dc_replace": 3, "replace": 3,
             "ser": 2, "deser": 2.5, "crash": 0.5, "transform": 3, "poke": 2, "findall": 1.5, "walkgen": 1, "gen_next": 1, "tree": 1, "obs": 5},
     "C01": {"construct": 6, "twin": 6, "drop": 2, "detach_self": 1.5, "detach": 1, "duplicate": 2, "dc_replace": 3, "replace": 2,
             "ser": 1, "deser": 1, "peer_cid": 1.5, "transform": 0.5, "obs": 0.5},
@@ -1682,6 +1717,10 @@ def make_config(rseed: int, prop: str, tier: str, faults: bool) -> dict[str, Any
     leafs = ["LeafA", "LeafB", "LeafA2", "Meta"]
     extra = ["Vals", "Carrier", "Boom", "Serial", "Upper", "Lit", "Located", "Typed", "Dyn", "CaseMix", "Both"]
     extra.append("LocalLeaf")
+    if prop in ("C01", "C03", "C09", "C10", "C14"):
+        extra.append("Hook")
+        if r.random() < 0.15:
+            leafs += ["Hook", "Hook"]
     if prop == "C01":
         extra.append("EnumBag")
         if r.random() < 0.2:
@@ -1720,6 +1759,11 @@ def make_config(rseed: int, prop: str, tier: str, faults: bool) -> dict[str, Any
     if prop == "C04":
         pools["float"] = r.sample(U.FLOAT_POOL + [-0.0], 4)
         pools["int"] = r.sample(U.INT_POOL, 4)
+    if prop in ("C01", "C03", "C14", "C10") and r.random() < 0.2:
+        # swarm: ==-equal values of different types side by side (1 / 1.0 / True, 0 / 0.0 / False) in a value-rich class
+        leafs += ["Vals", "Vals"]
+        pools["int"] = [0, 1, r.choice(U.INT_POOL)]
+        pools["float"] = [0.0, 1.0, r.choice(U.FLOAT_POOL)]
     if rtc:
         pools["bool"] = [True]  # is_instance(False, bool) is False on the pinned tree (C13, not decided here)
     weights = dict(BASE_WEIGHTS.get(prop, BASE_WEIGHTS["C03"]))
@@ -1765,6 +1809,7 @@ def make_config(rseed: int, prop: str, tier: str, faults: bool) -> dict[str, Any
         "weights": weights,
         "formats": r.sample(list(FORMATS), r.choice([1, 2, 4])),
         "dyn_redefine": "Dyn" in leafs and r.random() < 0.6,
+        "reuse_visitors": r.random() < 0.5,
         "dyn_keep_old": prop == "C03" and r.random() < 0.5,
         "scripts": prop in ("C14", "C04", "C03") and r.random() < 0.6,
         "trace_logging": r.random() < 0.1,
@@ -2001,6 +2046,21 @@ def _shape(V0: Any, name: str, ns: dict[str, Any], shape: str) -> Any:
 
 
 def make_visitor(rules: dict[str, Any], strict: bool, world: "World", transform: bool = True, shape: str = "flat") -> Any:
+    if world.cfg.get("reuse_visitors"):
+        # users keep their visitor objects: one object per rule set for the whole run
+        key = json.dumps([rules, strict, transform, shape], sort_keys=True, default=str)
+        cache = world.__dict__.setdefault("_visitors", {})
+        if key in cache:
+            world.stats.probes["visitor_object_reused"] += 1
+            cache[key].log = []
+            return cache[key]
+        v = _make_visitor(rules, strict, world, transform, shape)
+        cache[key] = v
+        return v
+    return _make_visitor(rules, strict, world, transform, shape)
+
+
+def _make_visitor(rules: dict[str, Any], strict: bool, world: "World", transform: bool = True, shape: str = "flat") -> Any:
     ns: dict[str, Any] = {"strict": strict}
     for cls_name, rule in rules.items():
         ns["visit_" + cls_name] = _mk_visit(cls_name, rule, world)
@@ -2659,6 +2719,17 @@ def op_transform(self: World, op: dict[str, Any]) -> str:
         exp_raises = True
     pre_objs = {id(x) for x in self.last_reach} | {id(v) for v in list(NODE_REGISTRY.values())}
     v = make_visitor(rules, strict, self, shape=op.get("vshape", "flat"))
+    if op.get("burst"):
+        # the same visitor OBJECT has been through many transforms in which a rule raised (state left behind by failed
+        # calls must not accumulate)
+        bo = self.node_at(op["burst"]["on"])
+        for _ in range(op["burst"]["n"]):
+            try:
+                v.transform(bo)
+            except Exception:  # noqa: BLE001
+                pass
+        v.log = []
+        self.stats.probes["transform_after_burst_of_failures"] += 1
     FAULTS.reset_hits()
     outcome = "ok"
     res = None
